@@ -77,6 +77,19 @@ Proof.
   destruct Hds as (Hd & _). destruct (applies pp (i_ds i) m a); [destruct Hd as (path & ->); split; reflexivity|rewrite Hd; split; reflexivity].
 Qed.
 
+(** a port that is not a slave does not touch the data sets when it receives a general message *)
+Lemma recv_keeps_ds i n f i' o pp : step i (EvRecvGeneral n f) = Ok (i', o) ->
+  nth_error (i_ports i) n = Some pp -> is_slave (p_state pp) = false -> i_ds i' = i_ds i.
+Proof.
+  cbn [step]. intros Hs Hn Hsl. destruct (on_port_full i n _ i' o Hs) as [(_ & ->)|(pp0 & pp' & d' & oo & Hn0 & Hh & ->)]; [reflexivity|].
+  rewrite Hn in Hn0. inversion Hn0; subst pp0. cbn [i_ds].
+  destruct (recv_cases pp (i_ds i) (port_ti pp) f pp' d' oo _ (or_introl eq_refl) Hh) as [(-> & _)|(m & a & o2 & _ & _ & _ & _ & _ & Ha)]; [reflexivity|].
+  pose proof (handle_announce_ds _ _ _ _ _ _ _ _ Ha) as Hds. destruct (loop_m pp (i_ds i) m a); [destruct Hds as [_ ->]; reflexivity|].
+  destruct Hds as (Hd & _). unfold applies in Hd. rewrite Hsl in Hd. cbn [andb] in Hd. exact Hd.
+Qed.
+
+Definition is_m (d : decision) : bool := match d with DM1 | DM2 => true | _ => false end.
+
 (** * B hears two consecutive Announces of A and runs the BMCA *)
 Definition s_empty : st05 := mkS5 [[]] true.
 
@@ -107,7 +120,13 @@ Theorem hears_two c i m1 m2 a1 a2 i1 o1 i2 o2 i3 o3 :
   (decision_of dd (port_id c 0) x (prev =? 4) = DS1 ->
      ds_steps_removed (i_ds i3) = an_steps_removed a2 + 1 /\
      pd_parent (ds_parent (i_ds i3)) = h_source (m_header m2) /\
-     pd_gm_identity (ds_parent (i_ds i3)) = an_gm_identity a2).
+     pd_gm_identity (ds_parent (i_ds i3)) = an_gm_identity a2) /\
+  (decision_of dd (port_id c 0) x (prev =? 4) <> DS1 ->
+     if is_m (decision_of dd (port_id c 0) x (prev =? 4))
+     then ds_steps_removed (i_ds i3) = 0 /\ pd_parent (ds_parent (i_ds i3)) = mkPI (dd_clock_identity dd) 0 /\
+          pd_gm_identity (ds_parent (i_ds i3)) = dd_clock_identity dd
+     else ds_steps_removed (i_ds i3) = ds_steps_removed (i_ds i2) /\ pd_parent (ds_parent (i_ds i3)) = pd_parent (ds_parent (i_ds i2)) /\
+          pd_gm_identity (ds_parent (i_ds i3)) = pd_gm_identity (ds_parent (i_ds i2))).
 Proof.
   intros Hr Hinv Hnp Hacc Hmo Hpe W1 C1 B1 W2 C2 B2 Hsrc Hseq Hd1 Hs1 Hd2 Hs2 Hclk St1 St2 Hst1 Hst2 Hst3 x dd prev Hnf.
   assert (Hall : all_ports c = [0%nat]) by (unfold all_ports; rewrite Hnp; reflexivity).
@@ -153,7 +172,23 @@ Proof.
   split.
   - unfold states_ok_o in Hso. rewrite Hall in Hso. cbn [forallb] in Hso. rewrite andb_true_r in Hso. apply Z.eqb_eq in Hso.
     rewrite Hdec in Hso. exact Hso.
-  - intros Hds1. unfold ds_ok_o in Hdo. cbv zeta in Hdo. unfold s1_o in Hdo. rewrite Hall in Hdo. cbn [find] in Hdo.
+  - split.
+    2:{ intros Hnds1. unfold ds_ok_o in Hdo. cbv zeta in Hdo. unfold s1_o, any_m_o in Hdo. rewrite Hall in Hdo. cbn [find existsb] in Hdo.
+        rewrite Hdec in Hdo. rewrite orb_false_r in Hdo.
+        assert (Es : (match decision_of dd (port_id c 0) x (prev =? 4) with DS1 => negb (state_of (snapshot_of i2) 0 =? 2) | _ => false end) = false)
+          by (destruct (decision_of dd (port_id c 0) x (prev =? 4)); try reflexivity; contradiction Hnds1; reflexivity).
+        rewrite Es in Hdo. fold (is_m (decision_of dd (port_id c 0) x (prev =? 4))) in Hdo.
+        destruct (is_m (decision_of dd (port_id c 0) x (prev =? 4))).
+        - apply andb_true_iff in Hdo as [Hdo _]. apply andb_true_iff in Hdo as [H1 H2]. apply Z.eqb_eq in H1. cbn [snapshot_of sn_ds] in H1, H2.
+          split; [exact H1|].
+          unfold pd_eqb in H2. apply andb_true_iff in H2 as [H2 _]. apply andb_true_iff in H2 as [H2 _]. apply andb_true_iff in H2 as [H2 _].
+          apply andb_true_iff in H2 as [H2 Hg]. apply pi_eqb_eq in H2. apply Z.eqb_eq in Hg. cbn [pd_parent pd_gm_identity] in H2, Hg. split; assumption.
+        - unfold ds_eqb in Hdo. cbn [snapshot_of sn_ds] in Hdo.
+          apply andb_true_iff in Hdo as [Hdo _]. apply andb_true_iff in Hdo as [Hdo _]. apply andb_true_iff in Hdo as [Hdo _].
+          apply andb_true_iff in Hdo as [Hdo H2]. apply andb_true_iff in Hdo as [_ H1]. apply Z.eqb_eq in H1. split; [exact H1|].
+          unfold pd_eqb in H2. apply andb_true_iff in H2 as [H2 _]. apply andb_true_iff in H2 as [H2 _]. apply andb_true_iff in H2 as [H2 _].
+          apply andb_true_iff in H2 as [H2 Hg]. apply pi_eqb_eq in H2. apply Z.eqb_eq in Hg. split; assumption. }
+    intros Hds1. unfold ds_ok_o in Hdo. cbv zeta in Hdo. unfold s1_o in Hdo. rewrite Hall in Hdo. cbn [find] in Hdo.
     rewrite Hdec, Hds1 in Hdo. fold prev in Hdo.
     assert (En : negb (prev =? 2) = true) by (apply negb_true_iff; apply Z.eqb_neq; exact Hnf). rewrite En, Heo in Hdo.
     apply andb_true_iff in Hdo as [Hdo _]. apply andb_true_iff in Hdo as [H1 H2]. apply Z.eqb_eq in H1.
@@ -302,7 +337,13 @@ Theorem two_nodes cA iA ppA iA1 oA1 iA2 oA2 cB iB iB1 oB1 iB2 oB2 iB3 oB3 f1 f2 
              else (if worse_than ddB ddA then DS1 else DM2) in
   state_of (snapshot_of iB3) 0 = decided_state dec prev (dd_slave_only ddB) false /\
   (dec = DS1 -> ds_steps_removed (i_ds iB3) = 1 /\ pd_parent (ds_parent (i_ds iB3)) = p_identity ppA /\
-                pd_gm_identity (ds_parent (i_ds iB3)) = dd_clock_identity ddA).
+                pd_gm_identity (ds_parent (i_ds iB3)) = dd_clock_identity ddA) /\
+  (dec <> DS1 ->
+     if is_m dec
+     then ds_steps_removed (i_ds iB3) = 0 /\ pd_parent (ds_parent (i_ds iB3)) = mkPI (dd_clock_identity ddB) 0 /\
+          pd_gm_identity (ds_parent (i_ds iB3)) = dd_clock_identity ddB
+     else ds_steps_removed (i_ds iB3) = ds_steps_removed (i_ds iB2) /\ pd_parent (ds_parent (i_ds iB3)) = pd_parent (ds_parent (i_ds iB2)) /\
+          pd_gm_identity (ds_parent (i_ds iB3)) = pd_gm_identity (ds_parent (i_ds iB2))).
 Proof.
   intros HrA HnA HmA HpeA HovA HsA1 HsA2 Hf1 Hf2 HrB HinvB HnpB HaccB HmoB HpeB Hdom Hsdo Hclk HsB1 HsB2 HsB3 ddA ddB prev Hnf dec.
   destruct (emits_two cA iA ppA iA1 oA1 iA2 oA2 HrA HnA HmA HpeA HsA1 HsA2) as (F1 & F2 & W1 & W2 & C1 & C2 & Hseq).
@@ -326,6 +367,7 @@ Proof.
       unfold cds, x. cbn [cd_h cd_a cmp_from_own cmp_from_announce c_gm_identity]. rewrite Egm2.
       unfold ddB. rewrite Df2, Df1. destruct HrB as [_ HclkB _ _ _]. unfold clk_inv in HclkB. rewrite HclkB. intros E. apply Hclk. symmetry. exact E. }
     fold ddB in Hstate, Hds. fold prev in Hstate, Hds. rewrite Hdecx in Hstate, Hds. split; [exact Hstate|].
+    destruct Hds as [Hds Hnds]. split; [|exact Hnds].
     intros Hd. destruct (Hds Hd) as (S1 & S2 & S3). rewrite Est2 in S1. split; [exact S1|]. split; [rewrite S2; reflexivity|rewrite S3; exact Egm2].
 Qed.
 
@@ -604,7 +646,13 @@ Lemma node_hears sX sY iX0 oX0 iY0 oY0 :
     run_state iY0 [EvAnnounceReceiptTimer 0; EvAnnounceTimer 0 []; EvAnnounceTimer 0 []] = Some iY3 /\
     run_state iY3 [EvRecvGeneral 0 f1; EvRecvGeneral 0 f2; EvBmca] = Some iY6 /\
     state_of (snapshot_of iY6) 0 =
-      (if worse_than (ds_default (i_ds iY0)) (ds_default (i_ds iX0)) then demoted_state (ds_default (i_ds iY0)) else 6).
+      (if worse_than (ds_default (i_ds iY0)) (ds_default (i_ds iX0)) then demoted_state (ds_default (i_ds iY0)) else 6) /\
+    (* Y's data sets: it follows X only if it became a slave; otherwise it is its own grandmaster *)
+    let follows := worse_than (ds_default (i_ds iY0)) (ds_default (i_ds iX0))
+                   && negb ((1 <=? cq_class (dd_quality (ds_default (i_ds iY0)))) && (cq_class (dd_quality (ds_default (i_ds iY0))) <=? 127)) in
+    ds_steps_removed (i_ds iY6) = (if follows then 1 else 0) /\
+    pd_gm_identity (ds_parent (i_ds iY6)) =
+      (if follows then dd_clock_identity (ds_default (i_ds iX0)) else dd_clock_identity (ds_default (i_ds iY0))).
 Proof.
   intros (HsX & HsoX & HptX & pcX & rX & HpX & HaccX & HmoX) (HsY & HsoY & HptY & pcY & rY & HpY & HaccY & HmoY) Hdom Hsdo Hclk HiX HiY.
   destruct (prelude_run sX [] false iX0 oX0 HsX HiX HsoX) as (iX1 & oX1 & iX2 & oX2 & iX3 & oX3 & ppX1 & SX1 & SX2 & SX3 & RX1 & RX3 & QX1 & QX3 & NX1 & MX1 & _ & DX1 & PX1 & _ & _).
@@ -670,12 +718,24 @@ Proof.
               RX1 NX1 MX1 ltac:(rewrite PX1, HpeX; exact HptX) OvX1 SX2 SX3 F1 F2 RY3 InvY3 HnpY
               ltac:(rewrite HcfgY; exact HaccY) ltac:(rewrite HcfgY; exact HmoY) ltac:(rewrite PY3, HpeY; exact HptY)
               ltac:(rewrite DX1, DY3, DomX, DomY; exact Hdom) ltac:(rewrite DX1, DY3, SdoX, SdoY; exact Hsdo)
-              ltac:(rewrite DX1, CX, HownY; exact Hclk) SY4 SY5 SY6 ltac:(rewrite Hprev; discriminate)) as [Hstate _].
-  rewrite Hstate, Hprev.
-  destruct (recv_keeps_cfg _ _ _ _ _ SY5) as [DY5 _]. rewrite DY5, DY4, DY3, DX1.
-  assert (Hso : dd_slave_only (ds_default (i_ds iY0)) = false) by (rewrite SoY; exact HsoY). rewrite Hso.
-  unfold demoted_state. destruct ((1 <=? cq_class (dd_quality (ds_default (i_ds iY0)))) && (cq_class (dd_quality (ds_default (i_ds iY0))) <=? 127));
-    destruct (worse_than (ds_default (i_ds iY0)) (ds_default (i_ds iX0))); reflexivity.
+              ltac:(rewrite DX1, CX, HownY; exact Hclk) SY4 SY5 SY6 ltac:(rewrite Hprev; discriminate)) as (Hstate & HS1 & HnS1).
+  destruct (recv_keeps_cfg _ _ _ _ _ SY5) as [DY5 _].
+  assert (Hso : dd_slave_only (ds_default (i_ds iY0)) = false) by (rewrite SoY; exact HsoY).
+  assert (Eds5 : i_ds iY5 = i_ds iY3).
+  { rewrite (recv_keeps_ds iY4 0 _ iY5 oY5 ppY4 SY5 NY4 ltac:(rewrite M4; reflexivity)).
+    apply (recv_keeps_ds iY3 0 _ iY4 oY4 ppY3 SY4 NY3). rewrite MY3. reflexivity. }
+  split.
+  - rewrite Hstate, Hprev. rewrite DY5, DY4, DY3, DX1. rewrite Hso.
+    unfold demoted_state. destruct ((1 <=? cq_class (dd_quality (ds_default (i_ds iY0)))) && (cq_class (dd_quality (ds_default (i_ds iY0))) <=? 127));
+      destruct (worse_than (ds_default (i_ds iY0)) (ds_default (i_ds iX0))); reflexivity.
+  - cbv zeta. cbv zeta in HS1, HnS1. rewrite DY5, DY4, DY3, DX1 in HS1, HnS1. rewrite Eds5 in HnS1.
+    destruct QY3 as (_ & [OvS OvP] & _).
+    destruct ((1 <=? cq_class (dd_quality (ds_default (i_ds iY0)))) && (cq_class (dd_quality (ds_default (i_ds iY0))) <=? 127));
+      destruct (worse_than (ds_default (i_ds iY0)) (ds_default (i_ds iX0))); cbn [andb negb is_m] in *.
+    + destruct (HnS1 ltac:(discriminate)) as (A1 & _ & A3). rewrite A1, A3, OvS, OvP. unfold own_parent. cbn [pd_gm_identity]. rewrite DY3. split; reflexivity.
+    + destruct (HnS1 ltac:(discriminate)) as (A1 & _ & A3). rewrite A1, A3. split; reflexivity.
+    + destruct (HS1 eq_refl) as (A1 & _ & A3). rewrite A1, A3. split; reflexivity.
+    + destruct (HnS1 ltac:(discriminate)) as (A1 & _ & A3). rewrite A1, A3. split; reflexivity.
 Qed.
 
 Lemma worse_opposite ddA ddB : dd_clock_identity ddA <> dd_clock_identity ddB -> worse_than ddB ddA = negb (worse_than ddA ddB).
@@ -691,6 +751,8 @@ Qed.
     BMCA.  Exactly one of them keeps its port MASTER (the one whose own data set
     wins Figures 34/35); the other one's port is SLAVE (PASSIVE if its clockClass is
     in 1..127). *)
+Definition low_dd (dd : default_ds) : bool := (1 <=? cq_class (dd_quality dd)) && (cq_class (dd_quality dd) <=? 127).
+
 Theorem two_clock_network sA sB iA0 oA0 iB0 oB0 :
   single_plain sA -> single_plain sB ->
   ic_domain (su_config sA) = ic_domain (su_config sB) -> ic_sdo_id (su_config sA) = ic_sdo_id (su_config sB) ->
@@ -701,15 +763,60 @@ Theorem two_clock_network sA sB iA0 oA0 iB0 oB0 :
     run_state iB0 [EvAnnounceReceiptTimer 0; EvAnnounceTimer 0 []; EvAnnounceTimer 0 []] = Some iB3 /\
     run_state iA3 [EvRecvGeneral 0 fB1; EvRecvGeneral 0 fB2; EvBmca] = Some iA6 /\
     run_state iB3 [EvRecvGeneral 0 fA1; EvRecvGeneral 0 fA2; EvBmca] = Some iB6 /\
-    let wA := worse_than (ds_default (i_ds iA0)) (ds_default (i_ds iB0)) in
-    state_of (snapshot_of iA6) 0 = (if wA then demoted_state (ds_default (i_ds iA0)) else 6) /\
-    state_of (snapshot_of iB6) 0 = (if wA then 6 else demoted_state (ds_default (i_ds iB0))).
+    let ddA := ds_default (i_ds iA0) in
+    let ddB := ds_default (i_ds iB0) in
+    let wA := worse_than ddA ddB in
+    state_of (snapshot_of iA6) 0 = (if wA then demoted_state ddA else 6) /\
+    state_of (snapshot_of iB6) 0 = (if wA then 6 else demoted_state ddB) /\
+    (* the data sets: the loser follows the winner unless its clockClass is in 1..127,
+       in which case it is PASSIVE and remains its own grandmaster (finding F28) *)
+    let a_follows := wA && negb (low_dd ddA) in
+    let b_follows := negb wA && negb (low_dd ddB) in
+    pd_gm_identity (ds_parent (i_ds iA6)) = (if a_follows then dd_clock_identity ddB else dd_clock_identity ddA) /\
+    pd_gm_identity (ds_parent (i_ds iB6)) = (if b_follows then dd_clock_identity ddA else dd_clock_identity ddB) /\
+    ds_steps_removed (i_ds iA6) = (if a_follows then 1 else 0) /\
+    ds_steps_removed (i_ds iB6) = (if b_follows then 1 else 0).
 Proof.
   intros HA HB Hdom Hsdo Hclk HiA HiB.
-  destruct (node_hears sA sB iA0 oA0 iB0 oB0 HA HB Hdom Hsdo Hclk HiA HiB) as (fA1 & fA2 & iB3 & iB6 & _ & RB3 & RB6 & SB).
-  destruct (node_hears sB sA iB0 oB0 iA0 oA0 HB HA (eq_sym Hdom) (eq_sym Hsdo) (fun E => Hclk (eq_sym E)) HiB HiA) as (fB1 & fB2 & iA3 & iA6 & _ & RA3 & RA6 & SA).
-  exists fA1, fA2, fB1, fB2, iA3, iB3, iA6, iB6. repeat (split; [assumption|]). cbv zeta.
+  destruct (node_hears sA sB iA0 oA0 iB0 oB0 HA HB Hdom Hsdo Hclk HiA HiB) as (fA1 & fA2 & iB3 & iB6 & _ & RB3 & RB6 & SB & TB & GB).
+  destruct (node_hears sB sA iB0 oB0 iA0 oA0 HB HA (eq_sym Hdom) (eq_sym Hsdo) (fun E => Hclk (eq_sym E)) HiB HiA) as (fB1 & fB2 & iA3 & iA6 & _ & RA3 & RA6 & SA & TA & GA).
+  exists fA1, fA2, fB1, fB2, iA3, iB3, iA6, iB6. repeat (split; [assumption|]). cbv zeta. cbv zeta in TA, GA, TB, GB.
   destruct (init_dd sA iA0 oA0 HiA) as [(CA & _) _]. destruct (init_dd sB iB0 oB0 HiB) as [(CB & _) _].
-  rewrite (worse_opposite (ds_default (i_ds iA0)) (ds_default (i_ds iB0))) in SB by (rewrite CA, CB; exact Hclk).
-  try (split; [exact SA|]). rewrite SB. destruct (worse_than (ds_default (i_ds iA0)) (ds_default (i_ds iB0))); cbn [negb]; reflexivity.
+  rewrite (worse_opposite (ds_default (i_ds iA0)) (ds_default (i_ds iB0))) in SB, TB, GB by (rewrite CA, CB; exact Hclk).
+  unfold low_dd.
+  split; [rewrite SB; destruct (worse_than (ds_default (i_ds iA0)) (ds_default (i_ds iB0))); cbn [negb]; reflexivity|].
+  split; [exact GA|]. split; [exact GB|]. split; [exact TA|exact TB].
+Qed.
+
+(** One grandmaster - unless the loser's clockClass is in 1..127 (finding F28): then
+    both clocks are their own grandmaster, for every such pair of configurations. *)
+Corollary two_clock_grandmasters sA sB iA0 oA0 iB0 oB0 :
+  single_plain sA -> single_plain sB ->
+  ic_domain (su_config sA) = ic_domain (su_config sB) -> ic_sdo_id (su_config sA) = ic_sdo_id (su_config sB) ->
+  ic_clock_identity (su_config sA) <> ic_clock_identity (su_config sB) ->
+  init sA = Ok (iA0, oA0) -> init sB = Ok (iB0, oB0) ->
+  exists fA1 fA2 fB1 fB2 iA3 iB3 iA6 iB6,
+    run_state iA0 [EvAnnounceReceiptTimer 0; EvAnnounceTimer 0 []; EvAnnounceTimer 0 []] = Some iA3 /\
+    run_state iB0 [EvAnnounceReceiptTimer 0; EvAnnounceTimer 0 []; EvAnnounceTimer 0 []] = Some iB3 /\
+    run_state iA3 [EvRecvGeneral 0 fB1; EvRecvGeneral 0 fB2; EvBmca] = Some iA6 /\
+    run_state iB3 [EvRecvGeneral 0 fA1; EvRecvGeneral 0 fA2; EvBmca] = Some iB6 /\
+    let ddA := ds_default (i_ds iA0) in
+    let ddB := ds_default (i_ds iB0) in
+    let wA := worse_than ddA ddB in
+    let winner := if wA then dd_clock_identity ddB else dd_clock_identity ddA in
+    let loser_low := if wA then low_dd ddA else low_dd ddB in
+    if loser_low
+    then pd_gm_identity (ds_parent (i_ds iA6)) = dd_clock_identity ddA /\ pd_gm_identity (ds_parent (i_ds iB6)) = dd_clock_identity ddB /\
+         ds_steps_removed (i_ds iA6) = 0 /\ ds_steps_removed (i_ds iB6) = 0
+    else pd_gm_identity (ds_parent (i_ds iA6)) = winner /\ pd_gm_identity (ds_parent (i_ds iB6)) = winner /\
+         ds_steps_removed (i_ds iA6) = (if wA then 1 else 0) /\ ds_steps_removed (i_ds iB6) = (if wA then 0 else 1).
+Proof.
+  intros HA HB Hdom Hsdo Hclk HiA HiB.
+  destruct (two_clock_network sA sB iA0 oA0 iB0 oB0 HA HB Hdom Hsdo Hclk HiA HiB)
+    as (fA1 & fA2 & fB1 & fB2 & iA3 & iB3 & iA6 & iB6 & RA3 & RB3 & RA6 & RB6 & H).
+  exists fA1, fA2, fB1, fB2, iA3, iB3, iA6, iB6. repeat (split; [assumption|]).
+  cbv zeta in H. destruct H as (_ & _ & GA & GB & TA & TB). cbv zeta.
+  destruct (worse_than (ds_default (i_ds iA0)) (ds_default (i_ds iB0)));
+    destruct (low_dd (ds_default (i_ds iA0))); destruct (low_dd (ds_default (i_ds iB0))); cbn [andb negb] in *;
+    repeat split; assumption.
 Qed.
